@@ -21,6 +21,7 @@
 #include <supla_esp_dns_client.h>
 #include "verif.h"
 #include "c20_dns.h"
+#include <sys/resource.h>
 #include "drvmain.h"
 
 static void on_result(ip_addr_t *ip) {
@@ -43,6 +44,10 @@ static void on_sent(struct espconn *e, const unsigned char *p, unsigned len, int
 
 static void run_case(int n, char **lines) {
   static unsigned char buf[70000];
+  /* a callback that does not return: the child is ended by SIGXCPU after 1 s of its own CPU time (a normal case
+   * needs a few ms; CPU time, so a loaded machine does not matter), SIGALRM as a wall-clock backstop.
+   * drvmain.h reports it as "#STATUS crash sig=24" (or sig=14). */
+  struct rlimit rl = {1, 2}; setrlimit(RLIMIT_CPU, &rl); alarm(30);
   v_quiet = 1; v_on_connect = on_connect; v_on_disconnect = on_disconnect; v_on_sent = on_sent;
   v_sent_default = 0;
   supla_esp_dns_client_init();
